@@ -1,1 +1,2 @@
 pub mod posixfs;
+pub mod durable;
